@@ -24,9 +24,10 @@ ASSUMPTIONS = ["UART: tuning word = t << 20 with a symbolic 12-bit t, in [2^30, 
                "SPISlave and timeline() are not covered (stated in OUTSIDE)"]
 BOUNDS = {"quick": "UART RX: BMC K=182 (one frame at 16 cycles/bit), transmitter rate -2% and +2%; UART TX: inductive step over all 32-bit tuning words (unbounded time) + BMC K=26; SPI K=30 (length<=4, divider<=3); I2C K=66; counters: one step from arbitrary state + one-shot BMC K=12",
           "thorough": "UART RX: one frame at 7 transmitter rates in +-2%, UART TX: inductive step + BMC K=38; SPI K=44 (length<=8, divider<=4); I2C K=86; counters as quick"}
-OUTSIDE = "UART RX at bit periods other than 16 cycles and transmitter rates between the enumerated ones; SPISlave, timeline(); electrical timing; I2C clock stretching and multi-master"
+OUTSIDE = "UART RX at bit periods other than 16 cycles and transmitter rates between the enumerated ones; timeline() with more than 4 events or offsets > 12 (BMC K covers two full runs, the counter has <= 13 states); UART FIFO depths > 4; electrical timing; I2C clock stretching and multi-master"
 FUNCS = ["litex.soc.cores.uart.RS232ClkPhaseAccum", "litex.soc.cores.uart.RS232PHYTX", "litex.soc.cores.uart.RS232PHYRX", "litex.soc.cores.spi.spi_master.SPIMaster", "litex.soc.cores.i2c.I2CClockGen",
-         "litex.soc.cores.i2c.I2CMasterMachine", "litex.soc.cores.timer.Timer", "litex.soc.cores.watchdog.Watchdog", "litex.gen.genlib.misc.WaitTimer", "litex.soc.cores.pwm.PWM"]
+         "litex.soc.cores.i2c.I2CMasterMachine", "litex.soc.cores.timer.Timer", "litex.soc.cores.watchdog.Watchdog", "litex.gen.genlib.misc.WaitTimer", "litex.soc.cores.pwm.PWM", "litex.gen.genlib.misc.timeline", "litex.soc.cores.uart.UART",
+         "litex.soc.cores.spi.spi_slave.SPISlave"]
 
 
 class UartTx(Mon):
@@ -585,6 +586,58 @@ def build_pwm_step():
              K=2, mode="step", init_reset=m.mregs, funcs=FUNCS, cfg=dict(), show=[m.dut.counter, m.dut.pwm], vcycles=20)
 
 
+class Timeline(Mon):
+    """misc.timeline(trigger, events): event i fires exactly times[i] cycles after an accepted trigger; triggers are ignored until the last
+    event has passed; then the sequencer is idle again.  Reference = a shift register of accepted triggers (no counter)."""
+
+    def __init__(self, times):
+        from litex.gen.genlib.misc import timeline
+        last = max(times)
+
+        class DUT(Module):
+            def __init__(self):
+                self.trigger = Signal()
+                self.fire = [Signal(name_override="fire%d" % i) for i in range(len(times))]
+                self.sync += [f.eq(0) for f in self.fire]
+                self.sync += timeline(self.trigger, [(t, [self.fire[i].eq(1)]) for i, t in enumerate(times)])
+        self.submodules.dut = dut = DUT()
+        self.free = [dut.trigger]
+        acc = [None] + [self.reg(1, "acc%d" % k) for k in range(1, last + 1)]
+        busy = 0
+        for k in range(1, last + 1):
+            busy = busy | acc[k]
+        accept = Signal(name_override="accept")
+        self.comb += accept.eq(dut.trigger & (busy == 0))
+        self.sync += [acc[1].eq(accept)] + [acc[k].eq(acc[k - 1]) for k in range(2, last + 1)]
+        bad = 0
+        for i, t in enumerate(times):
+            cond = accept if t == 0 else acc[t]
+            e = self.reg(1, "exp_fire%d" % i)
+            self.sync += e.eq(cond)
+            bad = bad | (dut.fire[i] != e)
+        self.bad = Signal(name_override="bad_timeline")
+        self.comb += self.bad.eq(bad)
+        runs = self.reg(2, "runs")
+        self.sync += If(acc[last] & (runs != 3), runs.eq(runs + 1))
+        self.w = Signal(name_override="w_two_runs")
+        self.comb += self.w.eq(runs >= 2)
+        self.show = [dut.trigger] + dut.fire
+
+
+def build_timeline(times, K):
+    m = Timeline(times)
+    return H("timeline_" + "_".join(map(str, times)), m, m.free, bad=dict(events_fire_at_their_offsets_once_per_trigger=m.bad), witness=dict(two_complete_runs=m.w), K=K,
+             funcs=["litex.gen.genlib.misc.timeline"], cfg=dict(times=times), show=m.show, vcycles=40)
+
+
+def _uart_core(which, K):
+    """the UART core proper (CSR <-> TX/RX FIFOs <-> PHY streams, status flags, events): harness shared with C15"""
+    from vf.props.c15 import build_client
+    h = build_client(which, K)
+    h.name = "uart_core_" + which
+    return h
+
+
 def jobs(tier):
     T = tier == "thorough"
     js = []
@@ -597,6 +650,9 @@ def jobs(tier):
           Job("spi_slave", build_spi_slave, dict(dw=4, K=70 if T else 56), cost=60, timeout_s=3400),
           Job("spi_master_aligned", build_spi, dict(mode="aligned", dw=8, maxlen=8 if T else 4, maxdiv=4 if T else 3, K=44 if T else 30), cost=50 if T else 20, timeout_s=3400),
           Job("i2c_machine", build_i2c, dict(maxload=0, K=86 if T else 66), cost=60 if T else 30, timeout_s=3400),
+          Job("uart_core_fifos_events", _uart_core, dict(which="uart", K=22 if T else 16), cost=20), Job("uart_core_rxwe", _uart_core, dict(which="uart_rxwe", K=18 if T else 14), cost=20),
+          Job("timeline_0_3_7", build_timeline, dict(times=[0, 3, 7], K=26)), Job("timeline_0_2_5", build_timeline, dict(times=[0, 2, 5], K=22)),
+          Job("timeline_1_4", build_timeline, dict(times=[1, 4], K=20)), Job("timeline_2_6_9_12", build_timeline, dict(times=[2, 6, 9, 12], K=36)),
           Job("timer_step", build_timer_step, {}), Job("timer_oneshot", build_timer_oneshot, dict(K=12)), Job("watchdog_step", build_wd_step, {}),
           Job("waittimer_step_5", build_wt_step, dict(t=5)), Job("waittimer_step_1000", build_wt_step, dict(t=1000)), Job("pwm_step", build_pwm_step, {})]
     return js
